@@ -62,6 +62,16 @@ pub fn check(p: &Params, got: &[SliderEvent]) -> Result<(), String> {
         let mut sorted = ds.clone();
         sorted.sort_by(f64::total_cmp);
         if td > 0.0 {
+            // the first tick is exactly at one tick distance under every reading of "multiples of the tick distance",
+            // so its existence is decided exactly (no tolerance): it exists iff it is on the path and not within the
+            // minimum distance from the end
+            let first_exists = td < len - min_end && td <= len;
+            if first_exists && sorted.is_empty() {
+                return Err(format!("span {s}: no tick although the first multiple {td} lies before the cut-off {} (len {len})", len - min_end));
+            }
+            if !first_exists && !sorted.is_empty() {
+                return Err(format!("span {s}: {} tick(s) although the first multiple {td} is not before the cut-off {} (len {len}, min-from-end {min_end})", sorted.len(), len - min_end));
+            }
             for (k, d) in sorted.iter().enumerate() {
                 let want = (k + 1) as f64 * td;
                 if !close(*d, want) && (d - want).abs() > 1e-6 * len {
